@@ -118,7 +118,7 @@ def make_pool(seed, n, scratch):
     except Exception:
         pass
     # deeply nested programs: whether they compile depends on the interpreter's recursion limit, which must not depend on history
-    for depth in [rnd.choice([40, 90]), rnd.choice([150, 220])]:
+    for depth in [rnd.choice([40, 90]), rnd.choice([150, 220]), rnd.choice([320, 400])]:
         body = "a();"
         for d in range(depth):
             body = f"if ($A == {d}) {{ {body} }}"
